@@ -284,12 +284,18 @@ def copyRefs (cp : Heap → Nat → Heap × Option Nat) : Heap → List (Option 
       | (h1, none) => (h1, [], false)
       | (h1, some y) => consSlot (some y) (copyRefs cp h1 rs as)
 
+/-- an internal pointer of the copy: left as it is (`stale`) or re-derived to point into the copy's buffer slot -/
+def repointView (nb : List (Option Nat)) (p : Option Nat × ViewAct × Nat) : Option Nat :=
+  match p.2.1 with
+  | .stale => p.1
+  | .repoint => match p.1 with | none => none | some _ => listGet nb p.2.2
+
+def repointViews (views : List (Option Nat)) (dv : List (ViewAct × Nat)) (nb : List (Option Nat)) : List (Option Nat) :=
+  (views.zip dv).map (repointView nb)
+
 /-- the struct is filled in; `sqfs_copy` then sets `refcount = 1` -/
 def finishCopy (d : CopyDesc) (h : Heap) (o : Obj) (nb nr : List (Option Nat)) : Heap × Option Nat :=
-  let views := (o.views.zip d.views).map fun (v, (act, slot)) =>
-    match act with
-    | .stale => v
-    | .repoint => match v with | none => none | some _ => listGet nb slot
+  let views := repointViews o.views d.views nb
   let (dst, cp) := match d.header with
     | .init => (true, true)
     | .memcpy => (o.destroy, o.copy)
@@ -438,10 +444,13 @@ def indexSlot (h : Heap) (id slot idx : Nat) : Heap :=
         | none => h.fail .useAfterFree
         | some bf => if idx < bf.cap then h else h.fail .overflow
 
-/-- what an object can observe of its own buffers: the contents of every slot and view -/
-def view (h : Heap) (id : Nat) : Option (List (Option Nat)) :=
-  match h.objs id with
+/-- what an owner sees through one slot: nothing through a NULL pointer or in a buffer whose used part is empty -/
+def slotVal (h : Heap) : Option Nat → Option Nat
   | none => none
-  | some o => some ((o.bufs ++ o.views).map fun s => match s with | none => none | some b => (h.bufs b).map (·.val))
+  | some b => (h.bufs b).bind fun bf => if bf.used = 0 then none else some bf.val
+
+/-- what an object can observe of its own buffers: the contents of every slot and of every internal pointer -/
+def view (h : Heap) (id : Nat) : Option (List (Option Nat)) :=
+  (h.objs id).map fun o => (o.bufs ++ o.views).map (slotVal h)
 
 end Sqfs.Obj
